@@ -386,11 +386,17 @@ DOC_SEPS = [b" ", b"\n", b"; ", b"", b", ", b"\x00", b"\r\n"]
 def documents(draw, max_frags=5, heavy=True, max_len=8192):
     n = draw(st.integers(1, max_frags))
     parts = []
+    frags = []
     for _ in range(n):
-        if heavy and draw(st.integers(0, 24)) == 0:
-            parts.append(draw(cached("heavy", heavy_fragment)))
+        if frags and draw(st.integers(0, 5)) == 0:
+            # exact repetition of an earlier fragment: second occurrences expose aliasing / memoisation slips
+            f = frags[draw(st.integers(0, len(frags) - 1))]
+        elif heavy and draw(st.integers(0, 24)) == 0:
+            f = draw(cached("heavy", heavy_fragment))
         else:
-            parts.append(draw(fragment()))
+            f = draw(fragment())
+        frags.append(f)
+        parts.append(f)
         parts.append(draw(st.sampled_from(DOC_SEPS)))
     return b"".join(parts)[:max_len]
 
